@@ -1257,6 +1257,7 @@ var knownInputs = []known{
 	{"I", "known-I-single-use-substitution-into-short-circuit-past-radix-bigint", "(function() {\n  function fn() { $(1, \"called\"); return 7; }\n  function t() { let x = fn(); return 0x0n && x; }\n  $(2, t());\n})();", "(function() {\n  function fn() { $(1, \"called\"); return 7; }\n  function t() { let x = fn(); return 0x0n && x; }\n  $(2, t());\n})();", api.LoaderJS, true},
 	{"H2", "known-H2-string-addition-reassociation-drops-empty-string-conversion", "var ob = $o(900, 1);\n$(1, ob + \"\" + ($(2, \"t\") + \"\" + 1));", "var ob = $o(900, 1);\n$(1, ob + \"\" + ($(2, \"t\") + \"\" + 1));", api.LoaderJS, false},
 	{"J", "known-J-optional-chain-insertion-extends-parenthesized-chain", "(function() {\n  function t(a) { a != null && (a.q?.y).z; return 1; }\n  try { $(1, t({q: null})); } catch (e) { $(2, e instanceof TypeError ? \"TypeError\" : \"other\"); }\n})();", "(function() {\n  function t(a) { a != null && (a.q?.y).z; return 1; }\n  try { $(1, t({q: null})); } catch (e) { $(2, e instanceof TypeError ? \"TypeError\" : \"other\"); }\n})();", api.LoaderJS, true},
+	{"K", "known-K-pure-optional-call-unwrapped-evaluates-arguments", "(function() {\n  function t(a) { /* @__PURE__ */ a?.($(1, \"x\")); return 1; }\n  $(2, t(null));\n})();", "(function() {\n  function t(a) { /* @__PURE__ */ a?.($(1, \"x\")); return 1; }\n  $(2, t(null));\n})();", api.LoaderJS, true},
 	{"G", "known-G-pow-finite-result-not-within-rounding-error", "enum E { A = 1e300 ** 0.1 }\n$(1, E.A);", "$(1, 1e300 ** 0.1);", api.LoaderTS, false},
 }
 
@@ -1296,6 +1297,7 @@ func runGlue(r *Rng, n int, tier string, st *Stats) {
 	st.Extra["avoid_known_I"] = avoid["I"]
 	st.Extra["avoid_known_H2"] = avoid["H2"]
 	st.Extra["avoid_known_J"] = avoid["J"]
+	st.Extra["avoid_known_K"] = avoid["K"]
 	if avoid["H2"] {
 		avoid["H"] = true // same family: the generator avoids both shapes
 	}
